@@ -132,7 +132,8 @@ func NewContend(c *rt.C, o CtdOpt) *Contend {
 	e.db = OpenDB(DBOpt{Mem: o.Mem, KV: o.KV})
 	if o.Perturb > 0 {
 		y := yielder(e.sd, o.Perturb)
-		hook := func(id int, arg unsafe.Pointer) { y() }
+		pt := perturber(e.sd, o.Perturb)
+		hook := func(id int, arg unsafe.Pointer) { pt(id) }
 		skiplist.VerifSetHook(hook)
 		nitro.VerifSetHook(hook)
 		if e.db.A != nil {
@@ -205,7 +206,21 @@ func (e *Contend) Run() {
 						item := e.db.Item(k, "probe")
 						rec.in = setIn{Op: "delete"}
 						rec.call = Tick()
-						ok := wr.Delete(item)
+						var ok bool
+						if lr.Intn(3) == 0 {
+							// the long way: lookup and DeleteNode, holding an accessor token so that the
+							// handle stays valid in between (what Delete2 does internally)
+							br := e.db.N.VerifStore().GetAccesBarrier()
+							tok := br.Acquire()
+							if n := wr.GetNode(item); n != nil {
+								ok = wr.DeleteNode(n)
+							}
+							br.Release(tok)
+						} else if lr.Intn(2) == 0 {
+							_, ok = wr.Delete2(item)
+						} else {
+							ok = wr.Delete(item)
+						}
 						rec.ret = Tick()
 						rec.out = setOut{OK: ok}
 					default:
